@@ -19,6 +19,7 @@ from typing import TYPE_CHECKING
 #
 from .constants import seq_to_flag
 from .exceptions import Bad
+from .utils import quoted
 
 if TYPE_CHECKING:
     from .search import SearchContext
@@ -76,6 +77,12 @@ def encode_header(hdr: str) -> bytes:
             result = Header(hdr).encode(maxlinelen=0).encode("latin-1")
         except UnicodeEncodeError:
             result = hdr.encode("latin-1", errors="replace")
+
+    # It is sent as a quoted string: escape the quoted-specials, and a CR or
+    # LF can not be part of it.
+    #
+    result = result.replace(b"\\", b"\\\\").replace(b'"', b'\\"')
+    result = result.replace(b"\r", b" ").replace(b"\n", b" ")
     return b'"' + result + b'"'
 
 
@@ -545,12 +552,12 @@ class FetchAtt:
         for value in values:
             if "," in value:
                 for lng in value.split(","):
-                    langs.add(f'"{lng.strip()}"')
+                    langs.add(quoted(lng.strip()))
             elif ";" in value:
                 for lng in value.split(";"):
-                    langs.add(f'"{lng.strip()}"')
+                    langs.add(quoted(lng.strip()))
             else:
-                langs.add(f'"{value.strip()}"')
+                langs.add(quoted(value.strip()))
 
         if not langs:
             return b"NIL"
@@ -609,7 +616,7 @@ class FetchAtt:
 
         results = []
         for k, v in params.items():
-            results.append(f'"{k.upper()}" "{v}"')
+            results.append(f"{quoted(k.upper())} {quoted(str(v))}")
 
         try:
             res = (f"({' '.join(results)})").encode("latin-1")
@@ -653,12 +660,12 @@ class FetchAtt:
 
         params = msg["Content-Disposition"].params  # type: ignore[union-attr]
         if not params:
-            return (f'("{cd}" NIL)').encode("latin-1")
+            return (f"({quoted(cd)} NIL)").encode("latin-1")
 
         result = []
         for param, value in params.items():
-            result.append(f'"{param.upper()}" "{value}"')
-        res = f'("{cd.upper()}" ({" ".join(result)}))'
+            result.append(f"{quoted(param.upper())} {quoted(str(value))}")
+        res = f"({quoted(cd.upper())} ({' '.join(result)}))"
         try:
             return res.encode("latin-1")
         except UnicodeEncodeError:
@@ -796,7 +803,7 @@ class FetchAtt:
             if "Content-Transfer-Encoding" in msg
             else "7BIT"
         )
-        result.append((f'"{cte}"').encode("latin-1"))
+        result.append(quoted(str(cte)).encode("latin-1", "replace"))
 
         # Body size
         payload = msg_as_bytes(msg, render_headers=False)
